@@ -80,8 +80,11 @@ Verdict(r) == CASE r.op = "vercmp" -> VercmpVerdict(r)
                 [] r.op = "vertriple" -> TripleVerdict(r)
                 [] OTHER -> "bad"
 
-VARIABLE k
-Init == k \in 1..Len(Rec)
-Next == UNCHANGED k
-Check == LET v == Verdict(Rec[k]) IN v = "ok" \/ PrintT(<<"MISMATCH", k, v>>)
+\* Records are independent observations: NB initial "block" states fan out to their
+\* records in one step, so that all workers validate in parallel.
+VARIABLES k, blk
+NB == 48
+Init == blk \in 0..(NB - 1) /\ k = 0 /\ Len(Rec) >= 0    \* forces the one-time load of the trace
+Next == k = 0 /\ k' \in {i \in 1..Len(Rec) : i % NB = blk} /\ UNCHANGED blk
+Check == k = 0 \/ LET v == Verdict(Rec[k]) IN v = "ok" \/ PrintT(<<"MISMATCH", k, v>>)
 =============================================================================
